@@ -3271,6 +3271,23 @@ def spec_eval(F, body, env, depth=0):
         _INLINE_OFF[0] -= 1
 
 
+def _fieldless_enum_eq(F, callee):
+    """the PartialEq impl named by `callee` belongs to a workspace enum whose variants carry no data (so equality is equality
+    of variants), and it is the derived one"""
+    m = re.match(r"^<(.+?) as std::cmp::PartialEq", callee)
+    if not m:
+        return False
+    a = F.adts.get(re.sub(r"<.*$", "", m.group(1)))
+    if not a or a["kind"] != "enum" or any(v["fields"] for v in a["variants"]):
+        return False
+    return True
+
+
+def _fieldless_enum_ty(F, ty):
+    a = F.adts.get(re.sub(r"^(&('\w+ )?(mut )?)+", "", ty).split("<")[0])
+    return bool(a) and a["kind"] == "enum" and not any(v["fields"] for v in a["variants"])
+
+
 def _spec_eval(F, body, env, depth):
     vals = []
     for p in enumerate_paths(body, max_paths=200000):
@@ -3280,6 +3297,19 @@ def _spec_eval(F, body, env, depth):
         binds = {}
         for dt, label, bb in p.conds:
             if dt[0] != "discr":
+                # `self == target` on two arguments whose variants are known (derived PartialEq of a fieldless enum: equal
+                # exactly when the variants are)
+                c_ = nosite(deep_strip(dt))
+                neg_ = False
+                while c_[0] == "un" and c_[1] == "Not":
+                    c_, neg_ = c_[2], not neg_
+                if c_[0] == "call" and len(c_[2]) == 2 and re.search(r"std::cmp::PartialEq(<[^>]*>)?>?::(eq|ne)$|std::cmp::impls::<impl std::cmp::PartialEq<.*> for .*>::(eq|ne)$", c_[1]) and not isinstance(label, tuple):
+                    a_, b_ = c_[2]
+                    if a_[0] == "arg" and b_[0] == "arg" and a_[1] in env and b_[1] in env and (_fieldless_enum_eq(F, c_[1]) or _fieldless_enum_ty(F, body.locals[a_[1]]["ty"]) and body.locals[a_[1]]["ty"] == body.locals[b_[1]]["ty"]):
+                        truth_ = (env[a_[1]] == env[b_[1]]) != c_[1].endswith("::ne")
+                        if (cond_truth(label) != neg_) != truth_:
+                            feasible = False
+                            break
                 continue
             base = nosite(deep_strip(dt[1]))
             names = set(label[1]) if isinstance(label, tuple) else {label}
